@@ -855,7 +855,68 @@ def _native_regions(tier, seed):
             "bound": "one region definition (single / optional / variadic; plain or single_block) with 0-3 regions of 0 / 1 / 2 blocks each: verify() vs the declared shape, exhaustive"}
 
 
-NATIVE = [("verify-vs-split", _native_verify), ("build-then-verify", _native_build), ("shared-variables", _native_shared), ("regions", _native_regions)]
+_succ_cache: dict = {}
+
+
+def _succ_cls(kind):
+    if kind not in _succ_cache:
+        from xdsl.irdl import IRDLOperation, irdl_op_definition, opt_successor_def, successor_def, traits_def, var_successor_def
+        from xdsl.traits import IsTerminator
+
+        ns = {"name": f"test.c10_sc_{kind}", "traits": traits_def(IsTerminator())}
+        if kind != "none":
+            ns["dest"] = {SINGLE: successor_def, OPTIONAL: opt_successor_def, VARIADIC: var_successor_def}[kind]()
+        try:
+            _succ_cache[kind] = irdl_op_definition(type(f"C10SC_{kind}", (IRDLOperation,), ns))
+        except Exception:
+            _succ_cache[kind] = None
+    return _succ_cache[kind]
+
+
+@rechecked
+def N_successors(kind, n):
+    """verify() of a terminator with NO / a single / an optional / a variadic successor definition carrying n successors (valid placement: last op of a block,
+    successors in the same region)."""
+    from xdsl.dialects import test
+    from xdsl.ir import Block, Region
+    from xdsl.utils.exceptions import VerifyException
+
+    cls = _succ_cls(kind)
+    if cls is None:
+        return None
+    targets = [Block([test.TestTermOp.create()]) for _ in range(3)]
+    try:
+        op = cls.create(successors=targets[:n])
+    except Exception:
+        return None
+    holder = test.TestOp.create(regions=[Region([Block([op])] + targets)])
+    exp = {"none": n == 0, SINGLE: n == 1, OPTIONAL: n <= 1, VARIADIC: True}[kind]
+    try:
+        op.verify()
+        got = True
+    except VerifyException:
+        got = False
+    except Exception as e:  # noqa: BLE001
+        return {"successor definition": kind, "successors": n, "verify raised": f"{type(e).__name__}: {str(e)[:120]}"}
+    del holder
+    if got != exp:
+        return {"successor definition": kind, "successors": n, "verify accepted": got, "the successor list splits into the declared segments": exp}
+    return None
+
+
+def _native_successors(tier, seed):
+    cases = 0
+    for kind in ("none", SINGLE, OPTIONAL, VARIADIC):
+        for n in range(0, 4):
+            cases += 1
+            f = N_successors(kind, n)
+            if f:
+                return {"cases": cases, "failures": [dict(f, key="C10/successors")], "exhaustive": True, "bound": ""}
+    return {"cases": cases, "failures": [], "exhaustive": True,
+            "bound": "a terminator with no / a single / an optional / a variadic successor definition and 0-3 successors: verify() vs the declared segments, exhaustive"}
+
+
+NATIVE = [("verify-vs-split", _native_verify), ("build-then-verify", _native_build), ("shared-variables", _native_shared), ("regions", _native_regions), ("successors", _native_successors)]
 SCANS = [("def-class-hierarchy", check_class_hierarchy)]
 
 
